@@ -98,7 +98,9 @@ fn run_case(_kind: &str, idx: u64, rng: &mut Rng, mon: &mut Mon, _tier: Tier) {
         // (with the CONSTRAINT_CENTERED sentinel the constraint centres become the previous vector; the centre of a
         // range with an infinite bound is not finite, and non-finite previous vectors are outside the property's
         // quantifier - see DESIGN 7.3: the singularity recovery spins on them. Infinite bounds go with explicit previous.)
-        let cls = if cls == 12 && sentinel { 6 } else { cls };
+        // (and not on J4 / J6, whose previous values drive the recovery loop: a change that swaps the previous vector for the
+        // centres would hang the check instead of failing it)
+        let cls = if cls == 12 && (sentinel || j == 3 || j == 5) { 6 } else { cls };
         classes[j] = cls;
         let (f, t) = limit_pair(rng, cls, anchor[j]);
         from[j] = f;
